@@ -28,6 +28,25 @@ theorem shutdown_closes_parked (s : St) (l : List (Nat × Bool)) (h : s.idle = s
 theorem abort_sends_quit (k : Conn) (h1 : k.closed = false) (h2 : k.broken = false) (h3 : k.peerAlive = true) :
     (abortConn k).hist = .eof :: .quit :: k.hist := abortConn_quit k h1 h2 h3
 
+/-- **Every parked connection that is still healthy gets its QUIT, whatever happened to the others.** Shutdown of a
+    pool whose idle list names each connection once (`one_place_at_a_time` of C07): a connection in the list that is open,
+    not broken and whose peer is still there has seen exactly QUIT and the close added to its history — no matter how
+    many of the connections before it in the list had been closed by the peer. -/
+theorem shutdown_quits_every_live_parked (s : St) (l : List (Nat × Bool)) (h : s.idle = some l)
+    (hn : (l.map (·.1)).Nodup) (c : Nat) (x : Bool) (hm : (c, x) ∈ l) (hc : c < s.conns.length)
+    (h1 : (getConn s c).closed = false) (h2 : (getConn s c).broken = false) (h3 : (getConn s c).peerAlive = true) :
+    (getConn (shutdownLock s) c).hist = .eof :: .quit :: (getConn s c).hist := by
+  unfold shutdownLock
+  simp only [h]
+  have := foldl_abort_hist l { s with idle := none } c hc hn (List.mem_map.mpr ⟨(c, x), hm, rfl⟩) h1 h2 h3
+  simpa [getConn] using this
+
+/-- non-vacuity: three parked connections, the peer has closed the first; the other two still get QUIT -/
+example :
+    let s := (run (init false 3 3 1 1 [{ dropAfter := some 0 }, {}, {}]) [.maintScan, .maintPush, .maintPush, .maintPush, .shutdownLock]).getD (init false 1 0 0 0 [])
+    (s.conns.map fun k => k.hist) = [[.kill, .ehlo], [.eof, .quit, .ehlo], [.eof, .quit, .ehlo]] := by
+  decide
+
 /-- A check-out after shutdown reports the shut-down error; no connection is opened, none is touched. -/
 theorem send_after_shutdown_fails (s s' : St) (i : Nat) (h : s.idle = none) (hs : connectionLock s i = some s') :
     s'.conns = s.conns ∧ s'.plans = s.plans ∧
